@@ -32,7 +32,15 @@ func VerifC02Profiles() {
 		}
 		p = c
 	}
-	in := windowInput(vnd.Param("C02.KProfiles", 2, 2))
+	var in string
+	if vnd.Bool() {
+		in = windowInput(vnd.Param("C02.KProfiles", 2, 2))
+	} else {
+		// non-ASCII scalar values of every length: encoding override (Semantic), repeated decoding and
+		// re-encoding see code points they cannot represent
+		in = runeWindowInput(vnd.Param("C02.KProfileRunes", 1, 2))
+		vnd.Cover("profile-rune-window", true)
+	}
 	u, err := p.Parse(in)
 	if err == nil && u == nil {
 		vnd.Fail("profile Parse returned neither a URL nor an error")
